@@ -239,6 +239,41 @@ theorem c18_codespeed_final (rs : List Run) (ok : Bool) :
   intro i r h
   simp [csSend, List.getElem?_zipIdx, h]
 
+theorem csEntry_run (i : Nat) (r : Run) : (csEntry i r).run = i := by
+  unfold csEntry; split <;> rfl
+
+/-- final mode with several Codespeed reporters in one session (experiments with their own
+`reporting` section): a reporter's request has an entry for every run attached to it and for
+no other run -/
+theorem c18_codespeed_final_only_attached (attached : List Bool) (rs : List Run) (ok : Bool) :
+    ∃ q, csFinalOf attached rs ok = .ok [q] ∧
+      (∀ e ∈ q.entries, attached.getD e.run false = true ∧ ∃ r, rs[e.run]? = some r ∧ e = csEntry e.run r) ∧
+      (∀ i r, rs[i]? = some r → attached.getD i false = true → csEntry i r ∈ q.entries) := by
+  refine ⟨_, rfl, ?_, ?_⟩
+  · intro e he
+    simp only [csSend, List.mem_map, List.mem_filter] at he
+    obtain ⟨p, ⟨hp, ha⟩, rfl⟩ := he
+    obtain ⟨r, i⟩ := p
+    have hi : rs[i]? = some r := by
+      have := List.mem_zipIdx_iff_getElem?.mp hp
+      simpa using this
+    rw [csEntry_run]
+    exact ⟨ha, r, hi, rfl⟩
+  · intro i r hi ha
+    simp only [csSend, List.mem_map, List.mem_filter]
+    refine ⟨(r, i), ⟨?_, ha⟩, rfl⟩
+    exact List.mem_zipIdx_iff_getElem?.mpr (by simpa using hi)
+
+/-- before the repair a reporter also reported runs it was not attached to -/
+theorem c18_codespeed_final_only_attached_full_fails :
+    ¬ (∀ (attached : List Bool) (rs : List Run) (ok : Bool), ∀ q, csFinalOfAllRuns attached rs ok = .ok [q] →
+        ∀ e ∈ q.entries, attached.getD e.run false = true) := by
+  intro h
+  have := h [true, false] [⟨[], [1], false⟩, ⟨[], [2], false⟩] true _ rfl
+    (csEntry 1 ⟨[], [2], false⟩) (by decide)
+  revert this
+  decide
+
 /-- the pinned tree crashes for exactly one run (`run_ids[0]` on a set) -/
 theorem c18_codespeed_final_pinned_fails :
     ¬ (∀ (rs : List Run) (ok : Bool), ∃ q, csFinalPinned rs ok = .ok [q] ∧ q.entries.length = rs.length) := by
